@@ -51,6 +51,10 @@ func genOne(t *rapid.T, cx *h.Ctx, allowFloat bool) OneCase {
 	if rapid.IntRange(0, 3).Draw(t, "dups") == 0 {
 		g = dupVertices(g, rapid.SliceOfN(rapid.IntRange(0, 40), 1, 6).Draw(t, "dupseeds"))
 	}
+	// empty members in front of, between and behind the members of multi-geometries and collections
+	if rapid.IntRange(0, 3).Draw(t, "emptymembers") == 0 {
+		g = insertEmptyMembers(g, rapid.SliceOfN(rapid.IntRange(0, 9), 1, 5).Draw(t, "emptyseeds"))
+	}
 	c := OneCase{G: m.Apply(g), Family: "lattice", Shape: shape, Aff: [6]float64{1, 0, 0, 0, 1, 0}}
 	if allowFloat && rapid.IntRange(0, 3).Draw(t, "floatfamily") == 0 {
 		c.Family = "float"
@@ -124,6 +128,42 @@ func genComb(t *rapid.T) gm.G {
 	default:
 		return gm.G{T: gm.GeometryCollection, Mem: []gm.G{{T: gm.Point, Co: gm.Fs(float64(W+3), 3)}, poly}}
 	}
+}
+
+// insertEmptyMembers: every MultiPoint/MultiLineString/MultiPolygon/GeometryCollection node k gets, when
+// seeds[k mod len] > 0, an empty member of the admissible type at position (seed-1) mod (n+1) - first, middle or last.
+func insertEmptyMembers(g gm.G, seeds []int) gm.G {
+	k := 0
+	var rec func(n gm.G) gm.G
+	rec = func(n gm.G) gm.G {
+		n = n.Norm()
+		var e gm.G
+		switch n.T {
+		case gm.MultiPoint:
+			e = gm.G{T: gm.Point, CT: n.CT}
+		case gm.MultiLineString:
+			e = gm.G{T: gm.LineString, CT: n.CT}
+		case gm.MultiPolygon:
+			e = gm.G{T: gm.Polygon, CT: n.CT}
+		case gm.GeometryCollection:
+			e = gm.G{T: []string{gm.Point, gm.LineString, gm.Polygon, gm.MultiPolygon, gm.GeometryCollection}[k%5], CT: n.CT}
+		default:
+			return n
+		}
+		out := n
+		out.Mem = make([]gm.G, 0, len(n.Mem)+1)
+		for _, m := range n.Mem {
+			out.Mem = append(out.Mem, rec(m))
+		}
+		sd := seeds[k%len(seeds)]
+		k++
+		if sd > 0 && len(out.Mem) > 0 {
+			pos := (sd - 1) % (len(out.Mem) + 1)
+			out.Mem = append(out.Mem[:pos], append([]gm.G{e}, out.Mem[pos:]...)...)
+		}
+		return out
+	}
+	return rec(g)
 }
 
 // dupVertices repeats vertices of the lines and rings of g: sequence k uses seeds[k mod len]; 0 leaves it alone,
